@@ -285,6 +285,8 @@ var (
 		{"latest", "t", "LATEST", "7b-instruct-q4_K_M", "v1.2.3", "_", "a..b", "0", "latest."},
 	}
 	badSpecial = []string{
+		// non-ASCII letters whose code point, cut to its low byte, is an ASCII letter, digit or underscore
+		"\u0430", "\u0141", "\u0161", "m\u043edel", "\u0130", "\u015f",
 		"..", ".", "...", "-", "-x", ".x", "..x", "x/..", "../x", "a/b", "a\\b", "..\\x", "%2e%2e", "%2F", "a%00b",
 		"a\x00b", "\x00", " ", "a b", "\xc3\xa9", "\xff", "!MISSING!", "a@b", "a:b", "a.b", "~", "*", "?", "[a]", "a\nb", "",
 		"a\tb", "x ", " x", "..:", ":..", "a//b", "\\", "/", ":", "@", "%", "a%2f..%2fb", "\u212a", "\uff0e\uff0e",
